@@ -3,9 +3,11 @@
 // For every cycle the handshake signals and payloads at EVERY stage boundary are logged; lean/Driver/C16.lean replays
 // each stage on the Lean model (DIFF) and checks the list specification + the interface law on this log (PROPFAIL).
 //
-// usage: c16 <seed> <ncases> <ncycles> [stallmode] [onlycase]
-//   stallmode 0 (default): stall conditions never rise while the stalled stream offers a beat that is not taken
-//   stallmode 1          : stall conditions are arbitrary
+// usage: c16 <seed> <ncases> <ncycles> [mode] [onlycase] [custom chain, e.g. "0 8 dsb,red:2"]
+//   mode is a bit mask; 0 (default) keeps the generator inside the preconditions of the Lean theorems:
+//   bit 0 (1): stall conditions are arbitrary (default: they never rise while the stalled stream offers a beat that is not taken)
+//   bit 1 (2): allow regDownstreamBlocking to feed a stage whose ready waits for valid (… -> reduceWidth), see Props.compose_live
+//   bit 2 (4): allow reduceWidth to be followed directly by delay(n >= 1)
 #include <gatery/scl_pch.h>
 #include <gatery/frontend.h>
 #include <gatery/scl/stream/Stream.h>
@@ -237,6 +239,19 @@ template<class S> void runCase(const CaseSpec &cs)
 		bool prevVout = false, prevRout = false;
 		unsigned quiet = 0, snkCount = 0;
 		const unsigned maxCycles = cs.ncycles + 4000;
+		// stay idle (valid = 0, ready = 0, not stalled) until the design is out of reset; these cycles are not logged
+		for (unsigned k = 0;; k++) {
+			simu(vIn) = false;
+			{ bool dummy = false; driveBeat(randBeat(dummy)); }
+			for (size_t i = 0; i < n; i++) if (stallPins[i]) simu(*stallPins[i]) = false;
+			simu(rRaw) = false;
+			simu(rSel) = (uint64_t)0;
+			auto rst = sim.getValueOfReset(clock.getClk());
+			bool active = rst[sim::DefaultConfig::VALUE] == (clock.getClk()->getRegAttribs().resetActive == hlim::RegisterAttributes::Active::HIGH);
+			if (k >= 2 && !active) break;
+			if (k > 1000) { std::cerr << "c16: reset never released\n"; exit(3); }
+			co_await OnClk(clock);
+		}
 		for (unsigned t = 0; t < maxCycles; t++) {
 			const bool drain = t >= cs.ncycles;
 			auto decide = [&](Pat &p, unsigned &left, bool sink) -> bool {
@@ -258,7 +273,7 @@ template<class S> void runCase(const CaseSpec &cs)
 			// stall conditions
 			for (size_t i = 0; i < n; i++) if (stallPins[i]) {
 				bool c = drain ? false : !decide(stl[i], stlLeft[i], false);
-				if (cs.stallmode == 0 && stallMustStayLow[i]) c = false;
+				if (!(cs.stallmode & 1) && stallMustStayLow[i]) c = false;
 				stallNow[i] = c;
 				simu(*stallPins[i]) = c;
 			}
@@ -305,11 +320,32 @@ template<class S> void runCase(const CaseSpec &cs)
 		sim.abort();
 	});
 	sim.powerOn();
-	sim.advance(hlim::ClockRational(cs.ncycles + 5000, 100'000'000));
+	sim.advance(hlim::ClockRational(cs.ncycles + 6100, 100'000'000));
 	std::cout << "end\n";
 }
 
-static CaseSpec genCase(vh::Rng &rng, uint64_t id, unsigned ncycles, unsigned stallmode)
+// does a chain violate the compatibility side condition of the liveness theorem / hit the reduceWidth|delay aliasing?
+static bool blockingFeedsWeak(const std::vector<StageSpec> &st)
+{
+	for (size_t i = 0; i < st.size(); i++) {
+		if (st[i].kind != DSB) continue;
+		for (size_t j = i + 1; j < st.size(); j++) {
+			Kind k = st[j].kind;
+			if (k == RED && st[j].a > 1) return true;
+			bool passes = k == STALL || k == EXT || k == RED || (k == DLY && st[j].a == 0) || k == DSB;
+			if (!passes) break;
+		}
+	}
+	return false;
+}
+static bool reduceThenDelay(const std::vector<StageSpec> &st)
+{
+	for (size_t i = 0; i + 1 < st.size(); i++)
+		if (st[i].kind == RED && st[i + 1].kind == DLY && st[i + 1].a >= 1) return true;
+	return false;
+}
+
+static CaseSpec genCase1(vh::Rng &rng, uint64_t id, unsigned ncycles, unsigned stallmode)
 {
 	CaseSpec cs;
 	cs.id = id;
@@ -355,6 +391,21 @@ static CaseSpec genCase(vh::Rng &rng, uint64_t id, unsigned ncycles, unsigned st
 	return cs;
 }
 
+static CaseSpec genCase(vh::Rng &rng, uint64_t id, unsigned ncycles, unsigned mode)
+{
+	for (;;) {
+		CaseSpec cs = genCase1(rng, id, ncycles, mode);
+		bool a = blockingFeedsWeak(cs.stages), b = reduceThenDelay(cs.stages);
+		if (a && !(mode & 2)) continue;
+		if (b && !(mode & 4)) continue;
+		// the dedicated streams should actually contain what they are for
+		if ((mode & 2) && !a && rng.chance(3, 4)) continue;
+		if ((mode & 4) && !b && rng.chance(3, 4)) continue;
+		if (mode & 1) { bool hasStall = false; for (auto &x : cs.stages) hasStall |= x.kind == STALL; if (!hasStall && rng.chance(7, 8)) continue; }
+		return cs;
+	}
+}
+
 int main(int argc, char **argv)
 {
 	uint64_t seed = vh::argU64(argc, argv, 1, 1);
@@ -362,12 +413,38 @@ int main(int argc, char **argv)
 	unsigned ncycles = (unsigned)vh::argU64(argc, argv, 3, 300);
 	unsigned stallmode = (unsigned)vh::argU64(argc, argv, 4, 0);
 	uint64_t only = vh::argU64(argc, argv, 5, ~0ull);
+	std::string custom = argc > 6 ? argv[6] : ""; // e.g. "0 8 dsb,red:2"  = stream kind, head width, stages (name[:a[:b]])
 	std::cout << "# prop=C16 seed=" << seed << " ncases=" << ncases << " ncycles=" << ncycles << " stallmode=" << stallmode << "\n";
 	vh::Rng rng(seed * 0x9E3779B97F4A7C15ull + 16);
 	for (uint64_t id = 0; id < ncases; id++) {
 		vh::Rng crng = rng.fork();
 		CaseSpec cs = genCase(crng, id, ncycles, stallmode);
 		if (only != ~0ull && id != only) continue;
+		if (!custom.empty()) {
+			std::istringstream is(custom);
+			std::string st;
+			is >> cs.skind >> cs.w0 >> st;
+			cs.stages.clear();
+			unsigned w = cs.w0;
+			std::istringstream ss(st);
+			for (std::string tok; std::getline(ss, tok, ',');) {
+				StageSpec sp;
+				std::vector<std::string> f;
+				std::istringstream ts(tok);
+				for (std::string x; std::getline(ts, x, ':');) f.push_back(x);
+				int k = -1;
+				for (int j = 0; j < 9; j++) if (f[0] == kindName[j]) k = j;
+				if (k < 0) { std::cerr << "c16: unknown stage " << f[0] << "\n"; return 2; }
+				sp.kind = (Kind)k;
+				if (f.size() > 1) sp.a = (unsigned)std::stoul(f[1]);
+				if (f.size() > 2) sp.b = (unsigned)std::stoul(f[2]);
+				sp.win = w; sp.wout = w;
+				if (sp.kind == EXT) sp.wout = w * sp.a;
+				if (sp.kind == RED) sp.wout = w / sp.a;
+				w = sp.wout;
+				cs.stages.push_back(sp);
+			}
+		}
 		try {
 			switch (cs.skind) {
 			case 0: runCase<S0>(cs); break;
